@@ -92,6 +92,14 @@ def creation_and_conversion(L, db, c, qt, u, fu, x=1.5):
     M("UnitDatabase.Convert([(u,1)],[(u,1),(foreign,1)])", lambda: db.Convert(qt, [(u, 1)], [(u, 1), (fu, 1)], x), case)
     M("UnitDatabase.Convert([(u,1),(foreign,-1)],[(u,1)])", lambda: db.Convert(qt, [(u, 1), (fu, -1)], [(u, 1)], x), case)
     M("UnitDatabase.Convert([(u,2)],[(u,2),(foreign,1)])", lambda: db.Convert(qt, [(u, 2)], [(u, 2), (fu, 1)], x), case)
+    # an amount that is exactly zero is an amount of its dimension like any other: zero metres are not zero seconds
+    for zero in (0.0, 0, -0.0):
+        M("UnitDatabase.Convert(qt,u,foreign,0)", lambda: db.Convert(qt, u, fu, zero), case)
+        M("UnitDatabase.Convert([(u,2)],[(foreign,2)]) of zero", lambda: db.Convert(qt, [(u, 2)], [(fu, 2)], zero), case)
+        M("UnitDatabase.Convert([(u,-1)],[(foreign,-1)]) of zero", lambda: db.Convert(qt, [(u, -1)], [(fu, -1)], zero), case)
+        M("Scalar(zero).GetValue(foreign)", lambda: Scalar(c, zero, u).GetValue(fu), case)
+        M("derived zero Scalar.GetValue([(foreign,2)])", lambda: (Scalar(c, zero, u) * Scalar(c, 1.0, u)).GetValue([(fu, 2)]), case)
+        M("Array[zeros].GetValues(foreign)", lambda: Array(c, [zero, zero], u).GetValues(fu), case)
     M("Array.GetValues(foreign)", lambda: a.GetValues(fu), case, (a,))
     M("Array[nd].GetValues(foreign)", lambda: an.GetValues(fu), case, (an,))
     M("Array.CreateCopy(unit=foreign)", lambda: a.CreateCopy(unit=fu), case, (a,))
